@@ -73,3 +73,13 @@ package routers
 //@   checks [floor] isnil(result2) ==> (exists k int, m string {routedTo(r.baseRouter, r.categories[k].(*Category).uuid, m, result1, result0)} :: 0 <= k && k < len(r.categories) && routedTo(r.baseRouter, r.categories[k].(*Category).uuid, m, result1, result0) && toreal(k) <= dec(rand) * toreal(len(r.categories)) && dec(rand) * toreal(len(r.categories)) < toreal(k) + 1)
 //@   witness [floor] k := categoryNum
 //@   ensures [some_category] isnil(result2) ==> (exists cu flows.CategoryUUID, m string {routedTo(r.baseRouter, cu, m, result1, result0)} :: routedTo(r.baseRouter, cu, m, result1, result0))
+
+// ---- C20: what a router declares to flow inspection is what routeToCategory saves: the result name and, as
+// categories, the names of the router's categories in order
+//@ func (r *baseRouter) EnumerateResults
+//@   requires catsOK(r)
+//@   callback include(info)
+//@   cb_requires [declares_what_is_saved] info != nil && info.Name == r.resultName && len(info.Categories) == len(r.categories) && (forall k int :: (0 <= k && k < len(r.categories)) ==> info.Categories[k] == r.categories[k].(*Category).name)
+//@ loop 1
+//@   invariant len(categoryNames) == len(r.categories)
+//@   invariant forall k int :: (0 <= k && k <= $i) ==> categoryNames[k] == r.categories[k].(*Category).name
